@@ -2,7 +2,7 @@
 from ..core import digest_of
 from .. import sched
 
-from ..net import valid_workloads as valid  # noqa: E402,F401
+from ..net import valid_workloads_noreuse as valid  # noqa: E402,F401
 
 ID = 'C13'
 SHRINK_KEEP = ('rate', 'table', 'fmap', 'flows')
